@@ -13,7 +13,7 @@ LEVEL_TEXT = ("Static structural proof of necessary conditions: (R15.1) alias-ba
               "(R15.3) in the grouping parser each branch taken on an opening symbol reaches its end only through a test "
               "of the matching closing token whose failing edge raises, and _parse raises when tokens remain. Matching "
               "semantics, the algebraic laws and sibling-order invariance are NOT decided.")
-LEVEL_EXTRA = 'Added after the seeded evaluation: (R15.3) every opening grouping token, including the exact-match form, tests its closing token and raises, and the token fetcher raises past the end; (R15.4) search results are merged and compared by object identity, never by tag equality. Added after the hunting pass: (R15.4) also the groups of two results are compared by identity; (R15.5) every fixed-text alternative of the tokenizer pattern has a kind in the Token table. (R15.6) the element-wise zip comparison of two results is dominated by a length comparison; (R15.7) the tokenizer builds one Token per occurrence. (R15.8) a bare term is tested against the schema-path terms of the tag. (R15.9) the star prefix is tested on the short form; (R15.10) the batch interface marks a row on the search result of that same row.'
+LEVEL_EXTRA = 'Added after the seeded evaluation: (R15.3) every opening grouping token, including the exact-match form, tests its closing token and raises, and the token fetcher raises past the end; (R15.4) search results are merged and compared by object identity, never by tag equality. Added after the hunting pass: (R15.4) also the groups of two results are compared by identity; (R15.5) every fixed-text alternative of the tokenizer pattern has a kind in the Token table. (R15.6) the element-wise zip comparison of two results is dominated by a length comparison; (R15.7) the tokenizer builds one Token per occurrence. (R15.8) a bare term is tested against the schema-path terms of the tag. (R15.9) the star prefix is tested on the short form; (R15.10) the batch interface marks a row on the search result of that same row. (R15.11) a parameter is handed on to every repository callee that takes a parameter of the same name (11 frozen exceptions package-wide).'
 
 ACCESSORS = ["find_tags", "find_wildcard_tags", "find_exact_tags", "find_def_tags", "find_tags_with_term",
              "get_all_tags", "get_all_groups", "tags", "groups", "find_placeholder_tag"]
@@ -311,6 +311,11 @@ def run(ctx):
                                       "`%s` tested for this row may still hold the search result of an earlier row (it is not assigned on "
                                       "every path of the iteration): an empty entry after a matching row is reported as a match" % nm,
                                       desc="`%s` is this row's own result" % nm)
+
+    # ---------------- R15.11: parameters are handed on to same-named parameters of repository callees
+    from sa.forward import check_forwarding
+    nfw = check_forwarding(ctx, "R15.11", [f for f in prog.functions.values() if f.module.name.startswith(('hed.models.query_handler', 'hed.models.query_expressions', 'hed.models.query_service', 'hed.models.query_util'))], 'e.g. exact matching')
+    ctx.floor("R15.11", "same-named parameter sites", nfw, 1)
 
 
 def _only_guards_raise(m, cmp):
